@@ -25,7 +25,7 @@ META = {
     "technique": "reference-model monitor over operation histories on a virtual-time loop "
                  "(exhaustive small scope + seeded random long histories), outcome vector compared at every settle point",
     "level_text": "Every history (exhaustive up to a bounded length over acquire/acquire-with-deadline/release/"
-                  "cancel/advance for Semaphore(0..2), BoundedSemaphore(1..2) and Lock; plus long random histories "
+                  "cancel/advance for Semaphore(0..2), BoundedSemaphore(0..2) and Lock; plus long random histories "
                   "that cross the 100-timeout waiter garbage collection) is executed on the real classes under virtual "
                   "time and on a sequential semaphore model; the states of all acquire futures are compared after every "
                   "step, over-release must raise, and the hidden permit count is probed at the end.",
@@ -46,7 +46,9 @@ REQUIRED_COUNTERS = ["oracle_evals", "grants_after_block", "timeouts_seen", "can
                      "over_release_raises", "end_probe_evals"]
 SHARD_TIMEOUT = {"quick": 240, "thorough": 3600}
 
-CONFIGS = [("sem", 0), ("sem", 1), ("sem", 2), ("bsem", 1), ("bsem", 2), ("lock", 1)]
+# BoundedSemaphore(0) is the one bounded configuration in which waiters can be queued while the permit count is
+# already at the bound: every release() there is "beyond the initial value" and must raise, waiters or not.
+CONFIGS = [("sem", 0), ("sem", 1), ("sem", 2), ("bsem", 0), ("bsem", 1), ("bsem", 2), ("lock", 1)]
 EXH_TMS = [None, ("rel", 0), ("abs", 1), ("zero",)]
 RAND_TMS = [None, None, ("rel", 0), ("rel", 1), ("abs", 0), ("abs", 1), ("rel", 2), ("zero",), ("tdzero",), ("past",)]
 EXH_LEN = {"quick": 6, "thorough": 7}
@@ -56,7 +58,7 @@ MAX_ACQ = 4
 
 def EXHAUSTIVE(tier):
     return ("all histories of length %d (every prefix checked) over {acquire(None|timedelta 0.5|absolute +1.5|0), release, "
-            "cancel(any pending), advance} with <= %d acquires, for Semaphore(0,1,2), BoundedSemaphore(1,2), Lock, "
+            "cancel(any pending), advance} with <= %d acquires, for Semaphore(0,1,2), BoundedSemaphore(0,1,2), Lock, "
             "each op followed by settle; and the same to length %d with no settle between ops"
             % (EXH_LEN[tier], MAX_ACQ, EXH_SYNC_LEN[tier]))
 
@@ -266,6 +268,11 @@ def directed_cases():
     yield (("sem", 1), (("acq", None), ("burst", 100), ("acq", None), ("acq", ("zero",)), ("rel",), ("rel",), ("acq", None)), ())
     yield (("lock", 1), (("acq", None), ("acq", ("rel", 0)), ("acq", None), ("adv",), ("rel",), ("rel",), ("rel",)), ())
     yield (("bsem", 2), (("acq", None), ("acq", None), ("acq", None), ("cancel", 2), ("rel",), ("rel",), ("rel",)), (3, 4))
+    # a bounded semaphore at its bound with waiters queued (only possible with initial value 0): release must raise
+    # and grant nothing, whether the queue holds live, timed-out or cancelled waiters
+    yield (("bsem", 0), (("acq", None), ("rel",), ("acq", ("rel", 0)), ("rel",), ("adv",), ("rel",), ("cancel", 0), ("rel",)), ())
+    yield (("bsem", 0), (("acq", None), ("acq", None), ("rel",), ("rel",), ("cancel", 0), ("rel",)), (0, 1, 2))
+    yield (("bsem", 0), (("aw",), ("rel",), ("acq", ("zero",)), ("rel",)), ())
 
 
 # --------------------------------------------------------------------------
